@@ -273,8 +273,24 @@ pub fn variable_sites(s: &S, scope: &mut Vec<String>, index: &mut usize, out: &m
 
 /// Replace one variable occurrence by another variable that is in scope at that point.
 pub fn swap_variable(s: &S, ch: &mut Ch) -> Option<S> {
+    swap_variable_with(s, ch, false)
+}
+
+/// `allow_hole`: the anonymous parameter of a function type `A -> B` counts as "in scope" in the
+/// codomain, so that a variable there may become `_` - a hole written under a binder of a type.
+/// That is how the recorded finding `hole-written-under-a-binder-loses-the-shift-of-its-type` was
+/// first met (by accident: the placeholder stood in the scope list). It crashes the checker, so
+/// only the checks that list the finding ask for it (a sixteenth of their swaps); everywhere else
+/// it is excluded by construction.
+pub fn swap_variable_with(s: &S, ch: &mut Ch, allow_hole: bool) -> Option<S> {
     let mut sites = vec![];
     variable_sites(s, &mut vec![], &mut 0, &mut sites);
+    let hole_wanted = allow_hole && ch.chance(1, 16);
+    let sites: Vec<(usize, Vec<String>)> = sites
+        .into_iter()
+        .map(|(i, others)| (i, others.into_iter().filter(|n| (n == PLACEHOLDER) == hole_wanted).collect::<Vec<_>>()))
+        .filter(|(_, others)| !others.is_empty())
+        .collect();
     if sites.is_empty() {
         return None;
     }
